@@ -512,6 +512,11 @@ fn gen_raw(t: &mut Tape) -> Bad {
     let startup = t.chance(1, 3);
     let bytes = if t.chance(1, 3) {
         gen_bytes(t, 24)
+    } else if startup && t.chance(1, 4) {
+        // a bare (small) length field with 0-3 further bytes
+        let mut v = (t.below(9) as i32).to_be_bytes().to_vec();
+        v.extend(gen_bytes(t, 3));
+        v
     } else {
         // header-shaped: [type] len body
         let body = if startup {
@@ -571,7 +576,7 @@ impl Check for C27 {
     }
     fn cases(&self, tier: Tier) -> u64 {
         match tier {
-            Tier::Quick => 3_000_000,
+            Tier::Quick => 10_000_000,
             Tier::Thorough => 100_000_000,
         }
     }
